@@ -8,6 +8,7 @@ the C++ source on this run (`N2k/Gen/Layouts.lean`).
                           an untranslated bit prints as `??`; `+` is appended when only a prefix of the payload is
                           translated; `untranslated` when the setter is outside the fragment
 * `parse <id> <pgn> hex`  → `refuse` | the code of every field the parser produces (`?` for an untranslated output)
+* `pgnlist …`             → `no-layout` (PGN 126464 has a repeated field; the C15 harness checks it directly)
 -/
 namespace Driver.Layout
 open N2k.Layout Driver
@@ -60,6 +61,7 @@ def step (_ : Unit) (w : List String) : Unit × String :=
     match findPair id, pgn.toNat?, hexBytes? h with
     | some P, some g, some bs => ((), parseOut P g bs)
     | _, _, _ => ((), "bad-op")
+  | "pgnlist" :: _ => ((), "no-layout")   -- PGN 126464: repeated field, outside the layout language (C15 oracle only)
   | _ => ((), "bad-op")
 
 def main : IO Unit := loop step ()
